@@ -15,22 +15,22 @@ PROP = dict(
         assumptions=['sequential use (fault handlers run with interrupts disabled on one CPU)',
                      'the frame allocator returns frames that are RAM and not in use',
                      'x86-64 4-level paging, 4 KiB pages'],
-        level_text='Lean theorems over the executable model of fault_amd64.go / vmm.go / map.go: zero_guard (Map, MapTemporary and the '
-                   'region page loops refuse a writable mapping of the zero frame in every state once the guard is armed), '
-                   'zero_never_rw_partial (a Map that succeeds changes one word and it is not a writable zero-frame entry), '
-                   'otherwise_panics (if pageFaultHandler returns at all, the leaf entry was present, read-only and copy-on-write, '
-                   'a frame was available and the temporary mapping was not refused - for every state, address and error code), '
-                   'cow_private_copy_partial (symbolic execution of the whole recovered fault: the allocator\'s frame is consumed and holds exactly '
-                   'the old frame\'s 512 words, the leaf entry becomes old flags - CoW + Present|RW with that frame, the shared frame and every '
-                   'other word of memory except the temporary page\'s entry are unchanged, the temporary page ends unmapped, flushes = '
-                   'temp, temp, page), gpf_panics, facts_current. The same clauses are evaluated by the oracle on the real code\'s memory '
-                   'after every fault.',
-        level_note='Partial: cow_private_copy is proved under the extra hypothesis that the temporary-mapping page\'s tables already exist (true '
-                   'after the first MapTemporary); the case where they must be created, and the induction of zero_never_rw over whole '
-                   'histories, are NOT proved in Lean; they are carried by the correspondence run (141+ recovered faults per quick run, '
-                   'all flag subsets on the leaf, missing/odd upper levels, allocator and temporary-mapping failures at each step, '
-                   'several pages sharing the zero frame faulted in random order) and the oracle clauses cow-entry-private-rw, '
-                   'cow-copy-equal-contents, cow-shared-frame-untouched, cow-others-untouched, cow-flush, otherwise-panics, '
-                   'failure-panics, zero-never-rw, zero-frame-guard. Trusted: Lean kernel (+ propext, Classical.choice, Quot.sound), '
-                   'the theorem statements, the harness emulation of the MMU; differential testing is not a proof about the Go code.',
+        level_text='Lean theorems over the executable model of fault_amd64.go / vmm.go / map.go. zero_never_rw: for every history of Map, '
+                   'MapRegion/IdentityMapRegion page loops, Unmap, MapTemporary and page faults that runs to completion from a state '
+                   'satisfying the invariant (well-formed active address space, guard armed, no page maps the zero frame with RW), the '
+                   'invariant holds again - the zero frame is never writable; zero_never_rw_inactive: the same for PDT.Map on an '
+                   'inactive table; zero_guard: Map, MapTemporary and the region loops refuse the mapping in every state. '
+                   'cow_private_copy: the recovered fault in every case (temporary-page tables present or created on the way): the '
+                   'page gets old flags - CoW + Present|RW with the allocator\'s frame, which holds exactly the old frame\'s 512 words; '
+                   'the shared frame, every other page\'s entry and all memory outside the tables are untouched; the temporary page ends '
+                   'unmapped; flushes temp, temp, page; or the handler panics because the allocator ran out. otherwise_panics: if the '
+                   'handler returns at all the leaf was present, read-only and CoW, a frame was available and the temporary mapping '
+                   'not refused. shared_zero_sequence: n pages sharing the zero frame faulted in any order get pairwise distinct '
+                   'all-zero frames and the shared frame stays all-zero. gpf_panics, cow_present_exact, zero_guard_one_word, '
+                   'facts_current. The same clauses are evaluated by the oracle on the real code\'s memory after every fault.',
+        level_note='Proved for the model in all cases (hypotheses: tables form a tree, allocator frames fresh - Good, which holds at boot and '
+                   'is preserved; frames < 2^40, flags outside bits 12-51, pages outside slot 511, fault not on the temporary page). '
+                   'reserveZeroedFrame itself (arming the guard) is covered by correspondence + oracle only. Trusted: Lean kernel '
+                   '(+ propext, Classical.choice, Quot.sound), the theorem statements, the harness emulation of the MMU (the faulting '
+                   'page\'s bytes are supplied by the harness); differential testing is not a proof about the Go code.',
 )
